@@ -580,6 +580,9 @@ func c12Script(c *Ctx, r *rand.Rand) {
 			c.violate(hashKey(src), "local-type program failed: "+firstLine(res.ErrString()), map[string]any{"source": src, "error": res.ErrString()})
 			continue
 		}
+		if !strings.Contains(res.Stdout, "G &{G:7} &{G:8} 15\n") {
+			c.violate(hashKey(src+"|global"), "the package-level type with the name of the methods' local types is not what later declarations get: "+clip(res.Stdout[strings.LastIndex(strings.TrimSpace(res.Stdout), "\n")+1:], 120), map[string]any{"source": src})
+		}
 		obs := map[int]string{}
 		for _, line := range strings.Split(res.Stdout, "\n") {
 			f := strings.SplitN(line, " ", 3)
@@ -623,6 +626,19 @@ func c12Script(c *Ctx, r *rand.Rand) {
 			}
 		}
 		c.distinct(hashKey(src))
+	}
+	// a local variable that has the name of an imported package holds a struct reference: stores and reads through that name
+	// are field accesses (the package is used under its name in another function)
+	for _, pkg := range []string{"strings", "fmt", "errors"} {
+		use := map[string]string{"strings": "strings.Repeat(s, 2)", "fmt": "fmt.Sprint(s, s)", "errors": "errors.New(s).Error()"}[pkg]
+		src := "package main\n\nimport \"" + pkg + "\"\n\ntype T struct {\n\tF0 int\n\tF1 string\n}\n\nfunc up(s string) string { return " + use + " }\n\nfunc (t *T) Bump() { t.F0 += 10 }\n\nfunc Main() {\n\t" + pkg + " := &T{}\n\t" +
+			pkg + ".F0 = 5\n\t" + pkg + ".F1 = \"x\"\n\tal := " + pkg + "\n\tal.F0 = 6\n\t" + pkg + ".F0 += 1\n\t" + pkg + ".F0++\n\t" + pkg + ".Bump()\n\tprintln(\"R\", 0, " + pkg + ".F0)\n\tprintln(\"R\", 1, al.F0)\n\tprintln(\"R\", 2, " + pkg + ".F1)\n\tprintln(\"R\", 3, len(up(\"ab\")) > 0)\n}\n"
+		res := runMain(src, true)
+		want := "R 0 18\nR 1 18\nR 2 x\nR 3 true\n"
+		if res.Failed() || res.Stdout != want {
+			c.violate(hashKey(src), fmt.Sprintf("a struct reference held in a local named like the imported package %s: got %q (%s) want %q", pkg, res.Stdout, firstLine(res.ErrString()), want), map[string]any{"source": src})
+		}
+		c.Evaluations++
 	}
 	// host route: the same histories driven through the embedding API (NewStruct, GetAttr, SetAttr, values
 	// passed to and returned from script functions)
@@ -856,10 +872,14 @@ func c12HostHistory(r *rand.Rand, id int) (desc string, zeros []string, evs []ma
 		}
 	}
 	for v := range vars {
+		var parts []string
 		for f := 0; f < nfields; f++ {
 			got := vars[v].GetAttr(fmt.Sprintf("F%d", f))
 			evs = append(evs, map[string]any{"op": "read", "var": v + 1, "f": f, "got": text(ftypes[f], got)})
+			parts = append(parts, fmt.Sprintf("F%d:%s", f, text(ftypes[f], got)))
 		}
+		// the instance as a whole (host-made and script-made instances alike): its fields in declaration order
+		evs = append(evs, map[string]any{"op": "method", "var": v + 1, "f": -1, "val": "&{" + strings.Join(parts, " ") + "}", "got": vars[v].String()})
 	}
 	return log.String(), zeros, evs, nil
 }
@@ -960,6 +980,8 @@ func c12LocalTypes(r *rand.Rand, id int) (string, []c12LTrace) {
 		traces = append(traces, tr)
 		_ = ti
 	}
-	b.WriteString("func Main() {\n\ta := &A{}\n\tb := &B{}\n\ta.Run(0)\n\tb.Run(0)\n\ta.Run(1)\n\tb.Run(1)\n}\n")
+	// the package-level type of the same name, mentioned (in a composite literal) by declarations that follow the methods
+	b.WriteString("type acc struct {\n\tG int\n}\n\nfunc (t *B) After() *acc {\n\treturn &acc{G: 8}\n}\n\nfunc mkAcc() *acc {\n\treturn &acc{G: 7}\n}\n\n")
+	b.WriteString("func Main() {\n\ta := &A{}\n\tb := &B{}\n\ta.Run(0)\n\tb.Run(0)\n\ta.Run(1)\n\tb.Run(1)\n\tprintln(\"G\", mkAcc(), b.After(), mkAcc().G+b.After().G)\n}\n")
 	return b.String(), traces
 }
